@@ -6,3 +6,4 @@ import PvModel.Props.C09
 #print axioms Pv.C09_exhausted_is_empty
 #print axioms Pv.C09_order_independent_tree
 #print axioms Pv.C09_next_functional
+#print axioms Pv.C09_order_independent_fd
